@@ -5,12 +5,13 @@
     reflexive <L>          does every literal set containing both trunk constraints of one sentence close (C10)
                            answer: ok | bad
     saturated <L> ## <node> ; <node> ; …     is this (open) branch saturated in the sense of Ptx/Tab/Saturated.lean
-                           answer: ok | quit | unsat <clause …> | <clause …> …   (first 6 clauses, ' | ' separated)
+                           answer: ok [ground] | quit | unsat <clause …>   (ground: the Hintikka theorem's hypothesis groundB holds) | <clause …> …   (first 6 clauses, ' | ' separated)
 -/
 import Ptx.Wire
 import Ptx.Sem.Extends
 import Ptx.Tab.Structural
 import Ptx.Tab.Saturated
+import Ptx.Sem.Complete
 import Ptx.Drv.Tab
 import Ptx.Sem.Sem
 import Ptx.Gen.All
@@ -32,7 +33,7 @@ def handle (ts : List String) : Option String :=
           let b : Branch := { nodes := nodes }
           if b.hasQuit then some "quit" else
           match L.unsaturated b with
-          | [] => some "ok"
+          | [] => some (if b.groundB L then "ok ground" else "ok")
           | ms => some ("unsat " ++ " | ".intercalate (ms.take 6))
       | none, _ => some "err:unknown-logic"
       | _, none => some "err:wire"
